@@ -227,6 +227,25 @@ pub struct PairCase {
     pub late_set: bool,
 }
 
+
+/// A handshake in which one PSK was left out must run exactly like the complete one up to the message that needs
+/// that PSK. A failure before that message (while the same handshake with nothing omitted completes) means the
+/// omission surfaced at the wrong place and as the wrong error.
+fn early_failure(c: &PairCase, k: usize, need_at: &dyn Fn(u8) -> usize, what: &str, detail: &str) -> Result<(), (String, String)> {
+    let Some((_, p)) = c.omit else { return Ok(()) };
+    if k >= need_at(p) {
+        return Ok(());
+    }
+    let mut control = c.clone();
+    control.omit = None;
+    control.peer_zero = false;
+    control.late_set = false;
+    if run_pair(&control).is_err() {
+        return Ok(()); // the complete handshake has its own problem: not this clause's business
+    }
+    Err(("a handshake with one PSK left out fails before the message that needs it (the omission must be reported there)".into(), format!("{detail}: {what}; psk{p} is first needed by message {}", need_at(p))))
+}
+
 fn run_pair(c: &PairCase) -> Result<(), (String, String)> {
     let pat = patterns::base_patterns().into_iter().find(|p| p.name == c.pattern).unwrap();
     let dh = DhAlg::from_name(&c.dh).unwrap();
@@ -290,7 +309,7 @@ fn run_pair(c: &PairCase) -> Result<(), (String, String)> {
             Ok(n) => n,
             Err(Error::State(StateProblem::MissingKeyMaterial)) => return Err(("a successfully built pair failed later for missing key material".into(), format!("{detail}: write of message {k}"))),
             Err(Error::State(StateProblem::MissingPsk)) => return Err(("a PSK that was supplied is reported missing later".into(), format!("{detail}: write of message {k}"))),
-            Err(_) => return Ok(()), // another failure of an honest handshake is C02's business, not this property's
+            Err(e) => return early_failure(c, k, &need_at, &format!("write of message {k}: {e:?}"), &detail),
         };
         // reader
         let mut res = catch_unwind(AssertUnwindSafe(|| r.read_message(&buf[..n], &mut out))).map_err(|_| ("read_message panicked".to_string(), detail.clone()))?;
@@ -311,10 +330,14 @@ fn run_pair(c: &PairCase) -> Result<(), (String, String)> {
             Ok(_) => {},
             Err(Error::State(StateProblem::MissingKeyMaterial)) => return Err(("a successfully built pair failed later for missing key material".into(), format!("{detail}: read of message {k}"))),
             Err(Error::State(StateProblem::MissingPsk)) => return Err(("a PSK that was supplied is reported missing later".into(), format!("{detail}: read of message {k}"))),
-            Err(_) => {
+            Err(e) => {
                 // with an all-zero substitute psk failing is the right answer; any other failure of an honest
-                // handshake is C02's (or, after a late set_psk, C07's) business
-                return Ok(());
+                // handshake is C02's (or, after a late set_psk, C07's) business - unless it happens BEFORE the message
+                // that needs the omitted psk: then the omission was not reported where it belongs
+                if c.peer_zero {
+                    return Ok(());
+                }
+                return early_failure(c, k, &need_at, &format!("read of message {k}: {e:?}"), &detail);
             },
         }
     }
